@@ -104,7 +104,27 @@ fn feed_chunked(w: &mut World, mut bytes: Vec<u8>, chunk: u16) {
             ));
         }
     }
-    if chunk == 0 {
+    if chunk >= 0xfff0 {
+        // the first read(s) end inside the fixed header / remaining-length field, the rest follows
+        // in one piece: [3, rest], [4, rest], [1, 2, rest], [2, rest]
+        let cuts: &[usize] = match chunk {
+            0xfff3 => &[3],
+            0xfff4 => &[4],
+            0xfff1 => &[1, 3],
+            _ => &[2],
+        };
+        let mut at = 0;
+        for c in cuts {
+            let c = (*c).min(bytes.len());
+            if c > at {
+                w.reader.feed(bytes[at..c].to_vec());
+                at = c;
+            }
+        }
+        if at < bytes.len() {
+            w.reader.feed(bytes[at..].to_vec());
+        }
+    } else if chunk == 0 {
         w.reader.feed(bytes);
     } else {
         for c in bytes.chunks(chunk as usize) {
@@ -568,9 +588,10 @@ impl Property for C02 {
         let s = (
             input(true),
             gen::form(),
-            // one transport chunk per packet: how reads are cut is C03's quantifier, not C02's
-            // (packets larger than the receive buffer still span several reads)
-            Just(0u16),
+            // one transport chunk per packet (how reads are cut in general is C03's quantifier),
+            // or a first read that ends inside the length field and the rest in one piece: a
+            // well-formed packet is accepted however it arrives
+            prop_oneof![6 => Just(0u16), 1 => Just(0xfff3u16), 1 => Just(0xfff4u16), 1 => Just(0xfff1u16), 1 => Just(0xfff2u16)],
         )
             .prop_map(|(input, form, chunk)| Case { input, form, chunk, ambient: 0 })
             .boxed();
